@@ -7,12 +7,12 @@ VERIF = Path(__file__).resolve().parents[2]
 
 CHECKS = {
     "C15": dict(
-        specs=["Scan.tla", "ScanR.tla", "ScanIO.tla", "CliTools.tla", "CliToolsIO.tla"],
+        specs=["Scan.tla", "ScanR.tla", "ScanIO.tla", "CliTools.tla", "CliToolsIO.tla", "Resume.tla"],
         text="TLC checks exhaustively (all haystacks/needles over a small alphabet, all buffer sizes, start offsets and "
         "limits) that the scanning algorithm with its carry buffer yields exactly Occ(hay, needle); every scenario of "
         "that model is replayed through the real iter_find_needle / iter_artifactkit_payloads at every buffer size and "
         "compared with the TLC-computed expectation; calls recorded at the real 8192 buffer with needles planted around "
-        "buffer boundaries are judged by TLC against the same reference operators. CliTools.tla models the loop of beacon-artifact (only the first payload found is written; exit status / message) and every hit sequence of <= 3 payloads is replayed through the real main().",
+        "buffer boundaries are judged by TLC against the same reference operators. CliTools.tla models the loop of beacon-artifact (only the first payload found is written; exit status / message) and every hit sequence of <= 3 payloads is replayed through the real main(). Resume.tla models a scanning generator over a file handle the caller may move between two results (the scanner that continues from the handle's position is rejected); its schedules are played to the real scanners, whose results must be those of an undisturbed run.",
         note="Trusted: TLC, the ScanR operators (written from the property statement), BytesIO/OS file semantics. "
         "Bounded: exhaustive only inside the small constants; beyond them sampled traces.",
         technique="TLA+ algorithm model checked against reference operators by TLC; TLC-generated expectation table "
@@ -48,13 +48,13 @@ CHECKS = {
         design="4/C20",
     ),
     "C05": dict(
-        specs=["PacketR.tla", "Packet.tla", "PacketIO.tla"],
+        specs=["PacketR.tla", "Packet.tla", "PacketIO.tla", "PacketStream.tla"],
         text="TLC explores every interleaving of up to 2-3 tampering faults (bit flips in ciphertext/signature, truncation, "
         "extension, wrong/missing HMAC key, wrong AES key) followed by the two-step receive path (authenticate, decrypt) and "
         "checks verify-before-decrypt, rejection of every tampered packet and the exact round trip; the scenario table "
         "(length x fault set x verify) and the framing table computed by TLC are replayed through encrypt_packet / "
         "decrypt_packet / dumps / iter_encrypted_packets, with ciphertext and signature recomputed by a CBC built from the raw "
-        "AES block function and stdlib HMAC; random events are judged by TLC.",
+        "AES block function and stdlib HMAC; random events are judged by TLC. PacketStream.tla is the session decoder over a message with several framed packets under the keys of the call or of the decoder (authenticating only the first packet, and filling a missing HMAC key from the decoder's own, are rejected); every terminal state is replayed through C2Http.iter_recover_http.",
         note="AES/HMAC numerics are uninterpreted in TLA+ (trusted: pycryptodome ECB block function, hashlib). Fault positions "
         "are classes (first/mid/last byte, bits 0 and 7) in the quick tier; thorough flips every bit.",
         technique="TLA+ protocol model with fault actions checked by TLC; TLC-computed scenario table replayed; events judged by TLC",
@@ -119,7 +119,7 @@ CHECKS = {
         design="4/C01",
     ),
     "C17": dict(
-        specs=["GuardR.tla", "Guardrails.tla", "GuardIO.tla"],
+        specs=["GuardR.tla", "Guardrails.tla", "GuardIO.tla", "Resume.tla"],
         text="GuardR states the masking algebra (environmental key, static keys, reversed-configuration guard mask), the "
         "checksum and the guard configuration layout with the sizes as parameters. At small sizes TLC checks for all keys, "
         "bodies, option sets and single corruptions that the recovery procedure (most common gram per key length, first "
@@ -127,7 +127,7 @@ CHECKS = {
         "does not match. At the real sizes 6144/2048 TLC renders protected areas (key-length classes x option subsets x "
         "corruption kinds x sparse/dense configuration) which the harness embeds raw or inside a XorEncoded PE at offset 0 / "
         "mid / end and runs through BeaconConfig.from_bytes and iter_guardrail_configs_with_beacon; what was reported is judged "
-        "by TLC (checksum relation, unmask algebra, completeness).",
+        "by TLC (checksum relation, unmask algebra, completeness). Resume.tla models a scanning generator over a file handle the caller may move between two results (the scanner that continues from the handle's position is rejected); its schedules are played to the real scanners, whose results must be those of an undisturbed run.",
         note="Trusted: TLC, GuardR, ref/guard.py (cross-checked byte for byte with GuardR.Protect each run). Configurations are "
         "zero-padded; corruptions stay outside the last 2048 configuration bytes; keys compared modulo primitive period.",
         technique="TLA+ model of protect/corrupt/recover checked by TLC at small sizes; TLC-rendered real-size areas replayed; reports judged by TLC",
